@@ -177,7 +177,8 @@ def explicit_sums(ctx):
 VALUE_SENSITIVE = {'set', 'frozenset', 'dict', 'sorted', 'unique', 'fromkeys', 'index', 'count', 'sort', 'remove', 'Counter', 'groupby', 'min', 'max',
                    'argsort', 'searchsorted', 'where', 'nonzero'}
 INDEX_ONLY = {'len', 'list', 'tuple', 'append', 'extend', 'range', 'enumerate', 'zip', 'iter', 'recurse', 'chain', 'product', 'prod', 'int', 'reversed',
-              'asarray', 'array', 'flatten', 'tolist', 'ones', 'zeros', 'isinstance', 'hasattr'}
+              'asarray', 'array', 'flatten', 'tolist', 'ones', 'zeros', 'isinstance', 'hasattr',
+              'list_or_tuple_or_ndarray', 'getattr'}      # type / shape tests: they look at the container, not at the values
 PACKERS = ['_pack', '_unpack', '_flat', '_nested', '_nested_split']
 
 
@@ -321,14 +322,14 @@ def measures_do_not_share_a_default_container(ctx):
             ctx.ok(mname + '#defaults', '%d functions: no mutable default argument is kept or mutated' % n, next(iter(m.funcs.values())), m.tree)
 
 
-@rule('C19.j', min_instances=2)
+@rule('C19.j', min_instances=3)
 def given_weights_are_never_replaced_by_the_default(ctx):
     """compose / _list_of_measures fall back to uniform weights when no weights are GIVEN; that is decided by `weights is None` (or an empty container), never by the truth value of the weights themselves: `not weights` is true for a 1x1 array holding the weight 0.0 (the given zero weight was replaced by 1.0 - compose / decompose no longer inverses "including zeros") and raises for larger arrays"""
     n = 0
-    for a in (DS + ':compose', DS + ':_list_of_measures'):
+    for a, PN in ((DS + ':compose', 'weights'), (DS + ':_list_of_measures', 'weights'), (DS + ':scenario.__init__', 'values')):
         f = ctx.func(a)
-        ctx.need('weights' in f.args(), '%s: no weights parameter' % f.qualname)
-        dflt = [s for s in stmts_of(f.node) if isinstance(s, ast.If) and any(isinstance(x, ast.Assign) and any(isinstance(t_, ast.Name) and t_.id == 'weights' for t_ in x.targets) for x in s.body)]
+        ctx.need(PN in f.args(), '%s: no %s parameter' % (f.qualname, PN))
+        dflt = [s for s in stmts_of(f.node) if isinstance(s, ast.If) and any(isinstance(x, ast.Assign) and any(isinstance(t_, ast.Name) and t_.id == PN for t_ in x.targets) for x in s.body)]
         ctx.need(dflt, '%s: the default for missing weights is not found' % f.qualname)
         for st in dflt:
             n += 1
@@ -340,8 +341,8 @@ def given_weights_are_never_replaced_by_the_default(ctx):
                 if isinstance(e, ast.BoolOp):
                     # `weights is None or not len(weights)`: after an `is None` alternative the rest may only use len()
                     return any(truthiness(v) for v in e.values)
-                return isinstance(e, ast.Name) and e.id == 'weights'
+                return isinstance(e, ast.Name) and e.id == PN
             ctx.check(not truthiness(st.test), '%s#default' % f.qualname, 'uniform weights only when weights is None / empty (%s)' % ' '.join(unparse(st.test).split()),
                       '%s decides "no weights given" by the truth value of the weights (%s): a single zero weight given as an array is replaced by a uniform weight, a larger array raises'
                       % (f.qualname, ' '.join(unparse(st.test).split())), f, st)
-    ctx.need(n >= 2, 'expected the weight defaults of compose and _list_of_measures, found %d' % n)
+    ctx.need(n >= 3, 'expected the defaults of compose, _list_of_measures and scenario.__init__, found %d' % n)
